@@ -45,48 +45,62 @@ ASSUMPTIONS = [
     "KNeighbors ties are excluded (general position, k-th and (k+1)-th neighbour distances differ by > 1e-9 relative, otherwise the query is dropped)",
     "linearity is monitored for the gridders the statement lists: Spline, Trend, VectorSpline2D, KNeighbors with mean, Linear",
 ]
-FLOORS = {  # ~40 % of what the unchanged tree produces (quick seed 0: 15274 shape / 2490 layout / 450 extra / 3080 query / 660 broadcast / 418 permutation /
-    # 336 linearity / 2508 dtype / 161 ownership evaluations, 9942 non-trivial); thorough = 20 x
+FLOORS = {  # ~40 % of what the unchanged tree produces at quick seed 0 (see evidence/C04.json for the observed counts); thorough = 20 x
     "quick": {
-        "eval:predict_shape": 6000, "eval:layout_invariance": 1000, "eval:extra_coords_ignored": 180, "eval:query_layout": 1200,
-        "eval:broadcast_shape": 260, "eval:permutation_invariance": 165, "eval:linearity": 130, "eval:dtype_invariance": 1000,
-        "eval:fitted_model_owns_its_data": 60, "distinct_nontrivial": 3900, "layout_invariance:2d": 130, "layout_invariance:fortran": 130,
-        "layout_invariance:strided": 180, "layout_invariance:reversed_view": 180, "layout_invariance:readonly": 180, "layout_invariance:series": 180,
-        "dtype_invariance:coords_int64": 100, "dtype_invariance:coords_int32": 100, "dtype_invariance:data_int64": 100,
-        "dtype_invariance:all_int32": 100, "dtype_invariance:query_int64": 100, "dtype_invariance:float_coords_data_int64": 70,
-        "query_layout:0d": 180, "query_layout:3d": 150, "query_layout:2d_fortran": 180, "linearity:buffer_reuse": 60, "groups": 180,
-        "groups:data_magnitude=1e-15": 24, "layout_invariance:data_magnitude=1e-15": 135, "permutation_invariance:data_magnitude=1e-15": 22,
-        "linearity:data_magnitude=1e-15": 17, "groups:data_magnitude=1e-12": 24, "layout_invariance:data_magnitude=1e-12": 135,
-        "permutation_invariance:data_magnitude=1e-12": 22, "linearity:data_magnitude=1e-12": 17, "groups:data_magnitude=1e-09": 24,
-        "layout_invariance:data_magnitude=1e-09": 135, "permutation_invariance:data_magnitude=1e-09": 22, "linearity:data_magnitude=1e-09": 17,
-        "groups:data_magnitude=1e-06": 24, "layout_invariance:data_magnitude=1e-06": 135, "permutation_invariance:data_magnitude=1e-06": 22,
-        "linearity:data_magnitude=1e-06": 17, "groups:data_magnitude=1": 24, "layout_invariance:data_magnitude=1": 135,
-        "permutation_invariance:data_magnitude=1": 22, "linearity:data_magnitude=1": 17, "groups:data_magnitude=1e+06": 24,
-        "layout_invariance:data_magnitude=1e+06": 135, "permutation_invariance:data_magnitude=1e+06": 22, "linearity:data_magnitude=1e+06": 17,
-        "groups:data_magnitude=1e+12": 24, "layout_invariance:data_magnitude=1e+12": 135, "permutation_invariance:data_magnitude=1e+12": 22,
-        "linearity:data_magnitude=1e+12": 17, "linearity:scalars=compensating": 70, "linearity:scalars=general": 60,
-        "linearity:mixed_magnitudes": 35, "groups:coordinate_extent_class=below_1e-2": 15, "groups:coordinate_extent_class=above_1e6": 15,
+        "eval:broadcast_shape": 202, "eval:dtype_invariance": 644, "eval:extra_coords_ignored": 132, "eval:fitted_model_owns_its_data": 50,
+        "eval:layout_invariance": 732, "eval:linearity": 103, "eval:permutation_invariance": 124, "eval:predict_shape": 5221,
+        "eval:query_layout": 908, "eval:reference_agreement": 28, "eval:refit_history": 379, "distinct_nontrivial": 3112,
+        "dtype_invariance:all_int32": 68, "dtype_invariance:coords_int32": 68, "dtype_invariance:coords_int64": 68,
+        "dtype_invariance:data_int64": 68, "dtype_invariance:float_coords_data_int64": 48, "dtype_invariance:query_int64": 68,
+        "forces:Spline:m==2n": 2, "forces:Spline:m==n": 4, "forces:Spline:m==n+1": 2, "forces:Spline:m==n-1": 2, "forces:VectorSpline2D:m==2n": 1,
+        "forces:VectorSpline2D:m==n": 2, "forces:VectorSpline2D:m==n+1": 1, "forces:VectorSpline2D:m==n-1": 1, "groups": 132,
+        "groups:ScipyGridder": 3, "groups:coordinate_extent_class=above_1e6": 10, "groups:coordinate_extent_class=below_1e-2": 11,
+        "groups:data_magnitude=1": 18, "groups:data_magnitude=1e+06": 17, "groups:data_magnitude=1e+12": 17, "groups:data_magnitude=1e-06": 19,
+        "groups:data_magnitude=1e-09": 19, "groups:data_magnitude=1e-12": 20, "groups:data_magnitude=1e-15": 20, "layout_invariance:2d": 101,
+        "layout_invariance:data_magnitude=1": 99, "layout_invariance:data_magnitude=1e+06": 98, "layout_invariance:data_magnitude=1e+12": 101,
+        "layout_invariance:data_magnitude=1e-06": 103, "layout_invariance:data_magnitude=1e-09": 103, "layout_invariance:data_magnitude=1e-12": 112,
+        "layout_invariance:data_magnitude=1e-15": 113, "layout_invariance:fortran": 101, "layout_invariance:readonly": 132,
+        "layout_invariance:reversed_view": 132, "layout_invariance:series": 132, "layout_invariance:strided": 132, "linearity:buffer_reuse": 46,
+        "linearity:data_magnitude=1": 14, "linearity:data_magnitude=1e+06": 13, "linearity:data_magnitude=1e+12": 12,
+        "linearity:data_magnitude=1e-06": 16, "linearity:data_magnitude=1e-09": 15, "linearity:data_magnitude=1e-12": 15,
+        "linearity:data_magnitude=1e-15": 15, "linearity:mixed_magnitudes": 28, "linearity:scalars=compensating": 51,
+        "linearity:scalars=general": 52, "permutation_invariance:data_magnitude=1": 16, "permutation_invariance:data_magnitude=1e+06": 16,
+        "permutation_invariance:data_magnitude=1e+12": 16, "permutation_invariance:data_magnitude=1e-06": 18,
+        "permutation_invariance:data_magnitude=1e-09": 18, "permutation_invariance:data_magnitude=1e-12": 18,
+        "permutation_invariance:data_magnitude=1e-15": 19, "query_layout:0d": 132, "query_layout:2d_fortran": 132, "query_layout:3d": 114,
+        "reference_agreement:m==2n": 4, "reference_agreement:m==n": 10, "reference_agreement:m==n+1": 4, "reference_agreement:m==n-1": 6,
+        "refit_history:chain": 12, "refit_history:cubic": 17, "refit_history:linear": 19, "refit_history:neighbors": 36,
+        "refit_history:other_points": 23, "refit_history:other_points_same_size": 22, "refit_history:same_points_permuted": 132, "refit_history:same_points_permuted_vs_base": 115,
+        "refit_history:spline": 76, "refit_history:subset": 39, "refit_history:superset": 45, "refit_history:trend": 52, "refit_history:vector": 36,
+        "refit_history:vector_of": 12,
     },
     "thorough": {
-        "eval:predict_shape": 120000, "eval:layout_invariance": 20000, "eval:extra_coords_ignored": 3600, "eval:query_layout": 24000,
-        "eval:broadcast_shape": 5200, "eval:permutation_invariance": 3300, "eval:linearity": 2600, "eval:dtype_invariance": 20000,
-        "eval:fitted_model_owns_its_data": 1200, "distinct_nontrivial": 78000, "layout_invariance:2d": 2600, "layout_invariance:fortran": 2600,
-        "layout_invariance:strided": 3600, "layout_invariance:reversed_view": 3600, "layout_invariance:readonly": 3600,
-        "layout_invariance:series": 3600, "dtype_invariance:coords_int64": 2000, "dtype_invariance:coords_int32": 2000,
-        "dtype_invariance:data_int64": 2000, "dtype_invariance:all_int32": 2000, "dtype_invariance:query_int64": 2000,
-        "dtype_invariance:float_coords_data_int64": 1400, "query_layout:0d": 3600, "query_layout:3d": 3000, "query_layout:2d_fortran": 3600,
-        "linearity:buffer_reuse": 1200, "groups": 3600, "groups:data_magnitude=1e-15": 480, "layout_invariance:data_magnitude=1e-15": 2700,
-        "permutation_invariance:data_magnitude=1e-15": 440, "linearity:data_magnitude=1e-15": 340, "groups:data_magnitude=1e-12": 480,
-        "layout_invariance:data_magnitude=1e-12": 2700, "permutation_invariance:data_magnitude=1e-12": 440, "linearity:data_magnitude=1e-12": 340,
-        "groups:data_magnitude=1e-09": 480, "layout_invariance:data_magnitude=1e-09": 2700, "permutation_invariance:data_magnitude=1e-09": 440,
-        "linearity:data_magnitude=1e-09": 340, "groups:data_magnitude=1e-06": 480, "layout_invariance:data_magnitude=1e-06": 2700,
-        "permutation_invariance:data_magnitude=1e-06": 440, "linearity:data_magnitude=1e-06": 340, "groups:data_magnitude=1": 480,
-        "layout_invariance:data_magnitude=1": 2700, "permutation_invariance:data_magnitude=1": 440, "linearity:data_magnitude=1": 340,
-        "groups:data_magnitude=1e+06": 480, "layout_invariance:data_magnitude=1e+06": 2700, "permutation_invariance:data_magnitude=1e+06": 440,
-        "linearity:data_magnitude=1e+06": 340, "groups:data_magnitude=1e+12": 480, "layout_invariance:data_magnitude=1e+12": 2700,
-        "permutation_invariance:data_magnitude=1e+12": 440, "linearity:data_magnitude=1e+12": 340, "linearity:scalars=compensating": 1400,
-        "linearity:scalars=general": 1200, "linearity:mixed_magnitudes": 700, "groups:coordinate_extent_class=below_1e-2": 300,
-        "groups:coordinate_extent_class=above_1e6": 300,
+        "eval:broadcast_shape": 4040, "eval:dtype_invariance": 12880, "eval:extra_coords_ignored": 2640, "eval:fitted_model_owns_its_data": 1000,
+        "eval:layout_invariance": 14640, "eval:linearity": 2060, "eval:permutation_invariance": 2480, "eval:predict_shape": 104420,
+        "eval:query_layout": 18160, "eval:reference_agreement": 560, "eval:refit_history": 7580, "distinct_nontrivial": 62240,
+        "dtype_invariance:all_int32": 1360, "dtype_invariance:coords_int32": 1360, "dtype_invariance:coords_int64": 1360,
+        "dtype_invariance:data_int64": 1360, "dtype_invariance:float_coords_data_int64": 960, "dtype_invariance:query_int64": 1360,
+        "forces:Spline:m==2n": 40, "forces:Spline:m==n": 80, "forces:Spline:m==n+1": 40, "forces:Spline:m==n-1": 40,
+        "forces:VectorSpline2D:m==2n": 20, "forces:VectorSpline2D:m==n": 40, "forces:VectorSpline2D:m==n+1": 20, "forces:VectorSpline2D:m==n-1": 20,
+        "groups": 2640, "groups:ScipyGridder": 60, "groups:coordinate_extent_class=above_1e6": 200, "groups:coordinate_extent_class=below_1e-2": 220,
+        "groups:data_magnitude=1": 360, "groups:data_magnitude=1e+06": 340, "groups:data_magnitude=1e+12": 340, "groups:data_magnitude=1e-06": 380,
+        "groups:data_magnitude=1e-09": 380, "groups:data_magnitude=1e-12": 400, "groups:data_magnitude=1e-15": 400, "layout_invariance:2d": 2020,
+        "layout_invariance:data_magnitude=1": 1980, "layout_invariance:data_magnitude=1e+06": 1960, "layout_invariance:data_magnitude=1e+12": 2020,
+        "layout_invariance:data_magnitude=1e-06": 2060, "layout_invariance:data_magnitude=1e-09": 2060,
+        "layout_invariance:data_magnitude=1e-12": 2240, "layout_invariance:data_magnitude=1e-15": 2260, "layout_invariance:fortran": 2020,
+        "layout_invariance:readonly": 2640, "layout_invariance:reversed_view": 2640, "layout_invariance:series": 2640,
+        "layout_invariance:strided": 2640, "linearity:buffer_reuse": 920, "linearity:data_magnitude=1": 280, "linearity:data_magnitude=1e+06": 260,
+        "linearity:data_magnitude=1e+12": 240, "linearity:data_magnitude=1e-06": 320, "linearity:data_magnitude=1e-09": 300,
+        "linearity:data_magnitude=1e-12": 300, "linearity:data_magnitude=1e-15": 300, "linearity:mixed_magnitudes": 560,
+        "linearity:scalars=compensating": 1020, "linearity:scalars=general": 1040, "permutation_invariance:data_magnitude=1": 320,
+        "permutation_invariance:data_magnitude=1e+06": 320, "permutation_invariance:data_magnitude=1e+12": 320,
+        "permutation_invariance:data_magnitude=1e-06": 360, "permutation_invariance:data_magnitude=1e-09": 360,
+        "permutation_invariance:data_magnitude=1e-12": 360, "permutation_invariance:data_magnitude=1e-15": 380, "query_layout:0d": 2640,
+        "query_layout:2d_fortran": 2640, "query_layout:3d": 2280, "reference_agreement:m==2n": 80, "reference_agreement:m==n": 200,
+        "reference_agreement:m==n+1": 80, "reference_agreement:m==n-1": 120, "refit_history:chain": 240, "refit_history:cubic": 340,
+        "refit_history:linear": 380, "refit_history:neighbors": 720, "refit_history:other_points": 460, "refit_history:other_points_same_size": 440, "refit_history:same_points_permuted": 2640,
+        "refit_history:same_points_permuted_vs_base": 2300, "refit_history:spline": 1520, "refit_history:subset": 780, "refit_history:superset": 900,
+        "refit_history:trend": 1040, "refit_history:vector": 720, "refit_history:vector_of": 240,
     },
 }
 JOBS = {"quick": 1, "thorough": 16}
@@ -95,8 +109,8 @@ CASE_TIMEOUT_S = 240
 
 def plan(tier):
     if tier == "quick":
-        return collections.OrderedDict(spline=110, trend=100, vector=50, neighbors=70, scipy=70, composite=50)
-    return collections.OrderedDict(spline=2200, trend=2000, vector=1000, neighbors=1400, scipy=1400, composite=1000)
+        return collections.OrderedDict(spline=70, trend=65, vector=32, neighbors=46, scipy=46, composite=32, forces=40)
+    return collections.OrderedDict(spline=1400, trend=1300, vector=640, neighbors=920, scipy=920, composite=640, forces=800)
 
 
 # ----------------------------------------------------------------------
@@ -164,6 +178,7 @@ class Model:
         self.kind, self.label, self.make, self.ncomp = kind, label, make, ncomp
         self.linear, self.weights_ok, self.qhull = linear, weights_ok, qhull
         self.rtol = QHULL_RTOL if qhull else 0.0
+        self.refit_fresh = None  # (first_east, first_north) -> (fresh estimator, reference Model) when the first fit leaves documented state behind
         self.params = params
 
     def jacobians(self, east, north, qe, qn):
@@ -201,7 +216,19 @@ def reference(model, east, north, data, weights, qe, qn):
             terms = (np.abs(jq) @ np.abs(params)).reshape(model.ncomp, nq)
             pred = (jq @ params).reshape(model.ncomp, nq)
         scale = max(dmax, float(np.max(np.abs(pred))) if pred.size else 0.0)
-        return {"kappa_eff": float(ls.kappa_eff), "terms": np.maximum(terms, dmax), "scale": scale, "skip": None, "kappa": float(ls.cond)}
+        slack = np.zeros((model.ncomp, nq))
+        if model.kind == "spline":
+            # verde's small-distance kernel form has absolute error eps*r, i.e. a RELATIVE error eps/(r|ln r|) (1e-11 at r = 1e-6): a comparison with the
+            # reference model (not of verde with itself) must allow the fit to move by kappa_eff times that relative perturbation of the Jacobian
+            p = model.params
+            fe, fn = (east, north) if p.get("force_coords") is None else p["force_coords"]
+            with np.errstate(all="ignore"):
+                r_data = ref.spline_jacobian(east, north, fe, fn, p["mindist"])[1]
+                r_query = ref.spline_jacobian(qe, qn, fe, fn, p["mindist"])[1]
+                rho = float(np.max(np.max(ref.spline_green_tol(r_data), axis=0) / ls.scale))
+                slack = (ref.spline_green_tol(r_query) @ np.abs(params)).reshape(1, nq) + 10 * float(ls.kappa_eff) * rho * scale
+        return {"kappa_eff": float(ls.kappa_eff), "terms": np.maximum(terms, dmax), "scale": scale, "skip": None, "kappa": float(ls.cond), "pred": pred,
+                "minimum_norm": bool(ls.underdetermined and not ls.damped), "kernel_slack": slack}
     if model.kind == "chain":  # [Trend, Spline]: the spline is fitted to the trend residuals
         first, second = model.params["steps"]
         r1 = reference(first, east, north, data, weights, qe, qn)
@@ -472,6 +499,20 @@ def run_group(run, rng, model, east, north, data, weights, qe, qn, integer_base=
             if nontrivial:
                 run.mark_nontrivial("perm", conf, east, north, data, perm)
 
+    # -- the base run against the reference least-squares model (explicit force coordinates: any number of forces) --------
+    if "pred" in refm and model.params.get("force_coords") is not None:
+        if not informative or refm["minimum_norm"]:
+            run.count("skipped:reference_agreement_" + ("minimum_norm_solution_not_in_statement" if informative else "uninformative"))
+        else:
+            run.evaluated("reference_agreement")
+            run.count("reference_agreement:" + str(model.params.get("force_class")))
+            worst = _compare(run, "reference_agreement", group, "base run vs reference least squares on the reference Jacobian (%d data, %d forces)"
+                             % (east.size, model.params["force_coords"][0].size), tuple(refm["pred"]), base, tol_cond + tol_layout + refm["kernel_slack"], base_witness, "reference")
+            run.observe_max("reference_agreement_error_over_tolerance", worst)
+
+    # -- refit histories on one instance ------------------------------------------------------
+    _refit_histories(run, rng, model, group, conf, east, north, data, weights, qe, qn, base, tol_cond, informative, nontrivial, attempt)
+
     # -- linearity --------------------------------------------------------------------------
     if model.linear:
         _linearity(run, rng, model, group, conf, east, north, data, weights, qe, qn, refm, informative, nontrivial, attempt, base, tol_layout, tol_cond)
@@ -483,6 +524,85 @@ def run_group(run, rng, model, east, north, data, weights, qe, qn, integer_base=
         _dtype_class(run, rng, imodel, imodel.label, iconf, integer_base, weights, attempt)
     if float_int_data is not None:
         _float_coords_int_data(run, rng, model, group, conf, east, north, float_int_data, weights, qe, qn, attempt)
+
+
+def _refit_histories(run, rng, model, group, conf, east, north, data, weights, qe, qn, base, tol_cond, informative, nontrivial, attempt):
+    """
+    fit, (predict,) fit again on ONE instance: the second fit must give what a fresh estimator gives on the second input, and for the same
+    point set in another order it must reproduce the base predictions within the permutation tolerance.
+    """
+    n = east.size
+    if n < 5:
+        return
+    ok_cond = informative or model.qhull or model.kind == "neighbors"
+
+    def pick(idx):
+        return (east[idx], north[idx]), tuple(d[idx] for d in data), None if weights is None else tuple(w[idx] for w in weights)
+
+    everything = pick(np.arange(n))
+    perm = rng.permutation(n)
+    while np.array_equal(perm, np.arange(n)):
+        perm = rng.permutation(n)
+    keep = np.sort(rng.choice(n, n - max(1, n // 4), replace=False))
+    m = n if rng.random() < 0.5 else max(4, n + int(rng.integers(-n // 3, n // 3 + 1)))  # another point set, half of the time of exactly the same size
+    oe = rng.uniform(east.min(), east.max(), m)
+    on = rng.uniform(north.min(), north.max(), m)
+    scale_d = max(float(np.max(np.abs(d))) for d in data)
+    other = ((oe, on), tuple(gen.smooth_field(rng, oe, on, scale_d) for _ in data), None if weights is None else tuple(10 ** rng.uniform(-3, 1, m) for _ in weights))
+    histories = [("same_points_permuted", everything, pick(perm))]
+    histories.append([("subset", everything, pick(keep)), ("superset", pick(keep), everything), ("other_points_same_size" if m == n else "other_points", other, everything)][int(rng.integers(0, 3))])
+    for hname, first, second in histories:
+        wit = dict(conf, variant="refit:" + hname, first_east=first[0][0], first_north=first[0][1], first_data=list(first[1]), second_east=second[0][0],
+                   second_north=second[0][1], second_data=list(second[1]), query_east=qe, query_north=qn,
+                   second_weights=None if second[2] is None else list(second[2]))
+
+        def history():
+            est = _fit(model, *first)
+            if rng.random() < 0.7:
+                _predict(est, (qe, qn))
+            d = second[1] if model.ncomp > 1 else second[1][0]
+            if second[2] is None:
+                est.fit(second[0], d)
+            else:
+                est.fit(second[0], d, second[2] if model.ncomp > 1 else second[2][0])
+            return _flat(_predict(est, (qe, qn)))
+
+        def fresh():
+            if model.refit_fresh is None:
+                return _flat(_predict(_fit(model, *second), (qe, qn))), model
+            est, ref_model = model.refit_fresh(first[0][0], first[0][1])
+            d = second[1]
+            if second[2] is None:
+                est.fit(second[0], d)
+            else:
+                est.fit(second[0], d, second[2])
+            return _flat(_predict(est, (qe, qn))), ref_model
+
+        got = attempt("refit_history", hname, history, wit, "refit:" + hname)
+        want = attempt("refit_history", hname + "(fresh)", fresh, wit, "refit-fresh:" + hname)
+        if got is None or want is None:
+            continue
+        want, ref_model = want
+        with np.errstate(all="ignore"):
+            refm2 = reference(ref_model, second[0][0], second[0][1], second[1], second[2], qe, qn)
+        rel2 = K_COND * refm2["kappa_eff"] * EPS
+        informative2 = (refm2["skip"] is None and rel2 <= UNINFORMATIVE) or model.qhull or model.kind == "neighbors"
+        run.evaluated("refit_history")
+        run.count("refit_history:" + hname)
+        run.count("refit_history:" + model.kind)
+        worst = _compare_refit(run, "refit_history", group, "second fit on the same instance (%s) vs a fresh estimator on the second input" % hname, want, got,
+                               64 * EPS * refm2["terms"], max(rel2 if np.isfinite(rel2) else 0.0, model.rtol) * refm2["scale"], informative2, wit, "refit:" + hname)
+        run.observe_max("refit_error_over_tolerance", worst)
+        if hname == "same_points_permuted" and model.kind != "cubic":
+            if not ok_cond:
+                run.count("skipped:uninformative_refit_vs_base")
+            else:
+                run.evaluated("refit_history")
+                run.count("refit_history:same_points_permuted_vs_base")
+                _compare(run, "refit_history", group, "refit with the same points in another order vs the base run", base, got,
+                         tol_cond + 64 * EPS * max(float(np.nanmax(np.abs(b))) if np.any(~np.isnan(b)) else 0.0 for b in base) + 64 * EPS * scale_d, wit, "refit-base")
+        if nontrivial:
+            run.mark_nontrivial("refit", hname, conf, first[0][0], second[0][0], second[1])
 
 
 def _query_variants(rng, qe, qn):
@@ -774,10 +894,10 @@ def _spline_model(rng, verde, east, north, scale, force_separate=None, damping="
     if damping == "random":
         damping = None if rng.random() < 0.45 else float(10 ** rng.uniform(-8, 2))
     if force_separate is None:
-        force_separate = rng.random() < 0.3
+        force_separate = rng.random() < 0.4
     force_coords = None
     if force_separate:
-        m = int(rng.integers(max(1, east.size // 4), east.size + 1))
+        m, force_class = _force_count(rng, east.size)
         force_coords = (rng.uniform(east.min(), east.max(), m), rng.uniform(north.min(), north.max(), m))
     kwargs = {"damping": damping, "force_coords": force_coords}
     if mindist:
@@ -789,7 +909,17 @@ def _spline_model(rng, verde, east, north, scale, force_separate=None, damping="
             return verde.Spline(**kwargs)
 
     return Model("spline", "%s(mindist=%g, damping=%s, forces=%s)" % (label, mindist, damping, "data" if force_coords is None else "separate[%d]" % force_coords[0].size),
-                 make, linear=True, mindist=mindist, damping=damping, force_coords=force_coords)
+                 make, linear=True, mindist=mindist, damping=damping, force_coords=force_coords, force_class=force_class if force_separate else "data")
+
+
+def _force_count(rng, n):
+    """Number of explicit forces: exactly the number of data points (a square, non-symmetric system), one less / more, twice as many, or anything."""
+    cls = str(rng.choice(["m==n", "m==n", "m==n-1", "m==n+1", "m==2n", "other"]))
+    m = {"m==n": n, "m==n-1": max(1, n - 1), "m==n+1": n + 1, "m==2n": 2 * n}.get(cls)
+    if m is None:
+        m = int(rng.integers(max(1, n // 4), n + 1))
+        cls = "m==n" if m == n else "other"
+    return m, cls
 
 
 def _stream_spline(run, rng, verde, index):
@@ -853,9 +983,9 @@ def _stream_vector(run, rng, verde, index):
     poisson = float(rng.choice([-1.0, 0.5, 1.0, rng.uniform(-1, 1)]))
     mindist = float(rng.choice([0.02, 0.1, 0.5]) * scale)
     damping = None if rng.random() < 0.4 else float(10 ** rng.uniform(-8, 2))
-    force_coords = None
-    if rng.random() < 0.3:
-        m = int(rng.integers(max(1, n // 4), n + 1))
+    force_coords, force_class = None, "data"
+    if rng.random() < 0.4:
+        m, force_class = _force_count(rng, n)
         force_coords = (rng.uniform(east.min(), east.max(), m), rng.uniform(north.min(), north.max(), m))
     fc = force_coords
 
@@ -863,7 +993,15 @@ def _stream_vector(run, rng, verde, index):
         return verde.VectorSpline2D(poisson=poisson, mindist=mindist, damping=damping, force_coords=None if fc is None else (fc[0].copy(), fc[1].copy()))
 
     model = Model("vector", "VectorSpline2D(poisson=%g, mindist=%g, damping=%s, forces=%s)" % (poisson, mindist, damping, "data" if fc is None else "separate[%d]" % fc[0].size),
-                  make, ncomp=2, linear=True, poisson=poisson, mindist=mindist, damping=damping, force_coords=force_coords)
+                  make, ncomp=2, linear=True, poisson=poisson, mindist=mindist, damping=damping, force_coords=force_coords, force_class=force_class)
+    if force_coords is None:  # documented: the force locations are set by the FIRST fit and kept by later fits of the same instance
+
+        def refit_fresh(first_east, first_north):
+            held = (np.array(first_east, dtype="float64"), np.array(first_north, dtype="float64"))
+            est = verde.VectorSpline2D(poisson=poisson, mindist=mindist, damping=damping, force_coords=(held[0].copy(), held[1].copy()))
+            return est, Model("vector", model.label + "[forces of the first fit]", None, ncomp=2, poisson=poisson, mindist=mindist, damping=damping, force_coords=held)
+
+        model.refit_fresh = refit_fresh
     qe, qn = _queries(rng, east, north, 12)
     ib, imodel = None, None
     if force_coords is None and index % 2 == 0:
@@ -910,6 +1048,11 @@ def _stream_scipy(run, rng, verde, index):
     cls = verde.Linear if linear else verde.Cubic
     model = Model("linear" if linear else "cubic", "%s(rescale=%s)" % (cls.__name__, rescale), lambda: cls(rescale=rescale), linear=linear, weights_ok=False, qhull=True,
                   rescale=rescale)
+    if index % 5 == 4:  # the deprecated generic wrapper around the same SciPy classes
+        method = "linear" if linear else "cubic"
+        model = Model(method, "ScipyGridder(%s, rescale=%s)" % (method, rescale), lambda: verde.ScipyGridder(method=method, extra_args={"rescale": rescale}),
+                      linear=linear, weights_ok=False, qhull=True, rescale=rescale)
+        run.count("groups:ScipyGridder")
     qe, qn = _queries(rng, east, north, 12, inside=True, far=2)
     ib = _integer_inputs(rng, min(n, 60), 1, inside=True) if index % 2 == 0 else None
     run_group(run, rng, model, east, north, data, None, qe, qn, integer_base=ib,
@@ -946,7 +1089,37 @@ def _stream_composite(run, rng, verde, index):
     run.sample("composite", {"gridder": model.label, "n": n, "weights": want_w, "compared": "base vs variant predictions through Chain / Vector (nested fit / predict calls are monitored too)"})
 
 
-_STREAMS = {"spline": _stream_spline, "trend": _stream_trend, "vector": _stream_vector, "neighbors": _stream_neighbors, "scipy": _stream_scipy,
+def _stream_forces(run, rng, verde, index):
+    """Explicit force coordinates that are NOT the data points, with size coincidences: exactly / one less / one more / twice as many forces as data."""
+    n = int(rng.integers(5, 45))
+    scale = gen.log_uniform(rng, 1e-1, 1e5)
+    want_w = rng.random() < 0.5
+    vector = index % 3 == 2
+    east, north, data, weights = _inputs(rng, n, 2 if vector else 1, want_w, scale=scale, magnitude=_magnitude(index))
+    cls = ("m==n", "m==n", "m==n-1", "m==n+1", "m==2n")[index % 5]
+    m = {"m==n": n, "m==n-1": n - 1, "m==n+1": n + 1, "m==2n": 2 * n}[cls]
+    fc = (rng.uniform(east.min(), east.max(), m), rng.uniform(north.min(), north.max(), m))
+    damping = None if (rng.random() < 0.5 and m <= n) else float(10 ** rng.uniform(-6, 1))
+    if vector:
+        poisson = float(rng.choice([-1.0, 0.0, 0.5, 1.0]))
+        mindist = float(rng.choice([0.05, 0.3]) * scale)
+        model = Model("vector", "VectorSpline2D(poisson=%g, mindist=%g, damping=%s, forces=separate[%d of %d])" % (poisson, mindist, damping, m, n),
+                      lambda: verde.VectorSpline2D(poisson=poisson, mindist=mindist, damping=damping, force_coords=(fc[0].copy(), fc[1].copy())),
+                      ncomp=2, linear=True, poisson=poisson, mindist=mindist, damping=damping, force_coords=fc, force_class=cls)
+    else:
+        mindist = float(rng.choice([0.0, 0.0, 1e-2 * scale]))
+        kwargs = {"damping": damping, "force_coords": fc}
+        if mindist:
+            kwargs["mindist"] = mindist
+        model = Model("spline", "Spline(mindist=%g, damping=%s, forces=separate[%d of %d])" % (mindist, damping, m, n), lambda: verde.Spline(**kwargs),
+                      linear=True, mindist=mindist, damping=damping, force_coords=fc, force_class=cls)
+    run.count("forces:%s:%s" % ("VectorSpline2D" if vector else "Spline", cls))
+    qe, qn = _queries(rng, east, north, 12)
+    run_group(run, rng, model, east, north, data, weights, qe, qn)
+    run.sample("forces", {"gridder": model.label, "n_data": n, "n_forces": m, "compared": "base vs reference least squares on the reference Jacobian, point orders, refits, layouts"})
+
+
+_STREAMS = {"forces": _stream_forces, "spline": _stream_spline, "trend": _stream_trend, "vector": _stream_vector, "neighbors": _stream_neighbors, "scipy": _stream_scipy,
             "composite": _stream_composite}
 
 
